@@ -93,8 +93,10 @@ META = {
         "abs-free identity prod(tensor regions) == value * prod(message overlaps) is symbolic",
         "D2BP contract() value on 4 connected tensors in symbolic mode (expanded product of local values > 10**5 terms): numeric-only",
         "contract_gloop_expand / contract_with_loops / contract_loop_series_expansion / normalize_message_pairs / normalize_messages "
-        "(fractional powers 1/4, 1/len of overlaps), get_gauged_tn (non-symmetric eig), sample_* (random), diis=True, thread pools: "
-        "numeric-only supplement for contract_gloop_expand, the others not covered",
+        "(fractional powers 1/4, 1/len of overlaps): numeric-only supplements (gloop_expand_supplement; read_history_supplement: every "
+        "sequence of <= 3 value reads from one converged D1BP / D2BP / HD1BP object, hyper indices and stored exponents included); the "
+        "in-place tensor rescaling they share (D1BP.normalize_tensors) is symbolic. get_gauged_tn (non-symmetric eig), sample_* (random), "
+        "diis=True, thread pools: not covered",
         "D2BP power != 1 / smudge != 0 message conditioning, D2BP.gate_, truncating compressions (approximate by design)",
         "run() histories: tolerances strictly between 'above every distance' and 'identical messages only' (the built-in distances call float(); "
         "see above), the rolling-mean criterion (tol_rolling_diff=0.0 is passed to the fine runs), histories that change the tensors between runs "
@@ -464,6 +466,115 @@ def d1bp_signed(mk, geom, kind):
     if not mk.sym:
         v = d1bp.contract_d1bp(tn, tol=1e-13, max_iterations=60)
         mk.eq(f"[numeric-only] contract_d1bp, default ({'L2phased' if kind == 'cplx' else 'L2'}) normalize / distance == exact value", v, Z)
+
+
+_NT = [{"geom": g, "kind": k, "_tiers": _Q if g == "path3" else _T, "_mandatory": g == "path3"}
+       for g in ("path3", "star4") for k in ("pos", "real", "cplx")]
+
+
+@obligation(PROP, params=_NT, wall_s=500, timeout_s=600, max_paths=600)
+def d1bp_normalize_tensors_then_read(mk, geom, kind):
+    """third round: reads from ONE converged D1BP object after it has rescaled its tensors.  normalize_tensors() (public; called by
+    contract_with_loops / contract_loop_series_expansion) divides every tensor by its local BP contraction and moves sign and
+    magnitude into bp.sign / bp.exponent: afterwards every local tensor contraction is 1 (documented) and every contraction read
+    from the same object -- contract(), contract(strip_exponent=True) -- is still the exact value of the tree, for signed real
+    (sign forks) and complex data; get_normalized_tn() leaves the object untouched."""
+    mk.encodes(d1bp.D1BP.normalize_tensors, d1bp.D1BP.get_normalized_tn, d1bp.D1BP.contract, d1bp.D1BP.local_tensor_contract,
+               bp_common.combine_local_contractions)
+    tn = build1(mk, geom, kind)
+    fg = FG(tn)
+    Z = fg.z()
+    bp = d1bp.D1BP(tn, normalize=nsum, distance=sdist)
+    info = {}
+    bp.run(info=info, **run_opts(mk, tn))
+    converged_goal(mk, "last round changed nothing", info)
+    if hasattr(bp, "get_normalized_tn"):
+        before = [np.array(t.data, dtype=t.data.dtype, copy=True) for t in bp.tn]
+        s0, e0 = bp.sign, bp.exponent
+        out = bp.get_normalized_tn()
+        for q_, (t, b0) in enumerate(zip(bp.tn, before)):
+            mk.eq(f"get_normalized_tn leaves tensor {q_} of the object untouched", t.data, b0)
+        mk.eq("get_normalized_tn leaves sign / exponent of the object untouched", np.array([bp.sign, bp.exponent], dtype=object if mk.sym else None),
+              np.array([s0, e0], dtype=object if mk.sym else None))
+        del out
+    bp.normalize_tensors()
+    for tid in bp.tn.tensor_map:
+        mk.eq(f"{kind}: after normalize_tensors the local contraction of tensor {tag_of(bp, tid)} is 1", bp.local_tensor_contract(tid), 1)
+    mk.eq(f"{kind}: contract() after normalize_tensors == exact value", bp.contract(), Z)
+    if kind == "real" or geom != "path3":
+        return          # signed real data: every further read forks again on the sign of every local value (2**k paths each)
+    mk.eq(f"{kind}: contract(strip_exponent=True) after normalize_tensors == exact value", value(bp.contract(strip_exponent=True)), Z)
+    bp.normalize_tensors()
+    mk.eq(f"{kind}: contract() after a second normalize_tensors == exact value", bp.contract(), Z)
+
+
+_RD = [{"flavour": f, "geom": g, "kind": k, "expo": e, "_tiers": _Q if g == "path3" else _T}
+       for f in ("D1BP", "D2BP") for g in ("path3", "star4") for k in ("real", "cplx") for e in (0, 1.0) if not (e and k == "cplx")]
+# hyper networks (an index shared by 3 tensors, dangling-free): region expansions with explicit covering regions
+_RD += [{"flavour": "HD1BP", "geom": g, "kind": k, "expo": e, "_tiers": _Q if g == "hyper3" else _T}
+        for g in ("hyper3", "hyperstar", "path3") for k in ("pos", "real") for e in (0, 1.0) if not (e and k == "real")]
+
+
+@obligation(PROP, params=_RD, wall_s=200, timeout_s=300, numeric=True)
+def read_history_supplement(mk, flavour, geom, kind, expo=0):
+    """NUMERIC-ONLY supplement (third round): every sequence of <= 3 value reads from one converged D1BP / D2BP object on a tree --
+    contract, contract(strip_exponent), contract_loop_series_expansion, contract_with_loops (D1BP), contract_gloop_expand -- returns
+    the exact value each time, on signed real and complex data.  The loop / region expansion entry points first rescale messages
+    (fractional powers of overlaps) and tensors in place, so a later read sees a mutated object; the rescaling step
+    normalize_tensors itself is decided symbolically by d1bp_normalize_tensors_then_read."""
+    mk.encodes(d1bp.D1BP.contract_loop_series_expansion, d1bp.D1BP.contract_with_loops, d1bp.D1BP.contract_gloop_expand,
+               d2bp.D2BP.contract_loop_series_expansion, d2bp.D2BP.contract_gloop_expand, d2bp.D2BP.normalize_tensors,
+               hd1bp.HD1BP.contract_gloop_expand, hd1bp.HD1BP.normalize_messages)
+    if mk.sym:
+        mk.note("numeric-only: the expansion entry points take fractional powers of message overlaps")
+        mk.same("numeric-only cell (symbolic run skipped)", True, True)
+        return
+    import itertools
+    import warnings
+    if flavour == "HD1BP":
+        tn = build1(mk, geom, kind)
+        want = FG(tn).z()
+        if expo:
+            tn.exponent = expo
+            want = want * 10 ** expo
+        tids = sorted(tn.tensor_map)
+        singles = [(t,) for t in tids]
+        nb = tn.get_tid_neighbor_map()
+        pairs = [(i, j) for i in tids for j in nb[i] if i < j]
+        reads = {"contract": lambda b: b.contract(), "contract_strip": lambda b: value(b.contract(strip_exponent=True)),
+                 "gloop_singles": lambda b: b.contract_gloop_expand(gloops=singles),
+                 "gloop_pairs+singles": lambda b: b.contract_gloop_expand(gloops=pairs + singles)}
+    elif flavour == "D2BP":
+        tn, n = build2(mk, geom, kind)
+        want = FG2(tn).norm2()
+        if expo:
+            tn.exponent = expo          # the ket denotes 10**expo times its tensors: the norm carries 10**(2 expo)
+            want = want * 10 ** (2 * expo)
+        reads = {"contract": lambda b: b.contract(), "contract_strip": lambda b: value(b.contract(strip_exponent=True)),
+                 "loop_series": lambda b: b.contract_loop_series_expansion(), "gloop_expand": lambda b: b.contract_gloop_expand()}
+    else:
+        tn = build1(mk, geom, kind)
+        want = FG(tn).z()
+        if expo:
+            tn.exponent = expo
+            want = want * 10 ** expo
+        reads = {"contract": lambda b: b.contract(), "contract_strip": lambda b: value(b.contract(strip_exponent=True)),
+                 "loop_series": lambda b: b.contract_loop_series_expansion(), "with_loops": lambda b: b.contract_with_loops(),
+                 "gloop_expand": lambda b: b.contract_gloop_expand()}
+    with warnings.catch_warnings():
+        warnings.simplefilter("ignore")
+        for seq in itertools.product(sorted(reads), repeat=3):
+            if len(set(seq)) == 1 and seq[0].startswith("contract"):
+                continue
+            if flavour == "D2BP":
+                bp = d2bp.D2BP(tn.copy())
+            elif flavour == "HD1BP":
+                bp = hd1bp.HD1BP(tn.copy(), smudge_factor=0.0)
+            else:
+                bp = d1bp.D1BP(tn.copy())
+            bp.run(tol=1e-13, max_iterations=80)
+            for q_, r_ in enumerate(seq):
+                mk.eq(f"[numeric-only] {flavour} reads {'>'.join(seq)}: read {q_} ({r_}) == exact value", reads[r_](bp), want, tol=1e-7)
 
 
 _ORDERS = {"path3": [(2, 0, 1), (1, 2, 0)], "star4": [(3, 1, 0, 2), (1, 2, 3, 0)], "path4": [(2, 0, 3, 1), (3, 2, 1, 0)],
